@@ -114,6 +114,9 @@ class ExprMixin:
         res = base
         res.pc[:] = common
         res.bidx = keep_b
+        res.cur = outs[0][0].cur                       # every outcome has returned to the same frame
+        for fid_, fr_ in outs[0][0].frames.items():
+            res.frames.setdefault(fid_, fr_)
         for c, fc in zip(conds, facts):
             if fc:
                 res.assume(z3.Implies(c, z3.And(*fc)))
@@ -282,6 +285,12 @@ class ExprMixin:
             b = s.lists[b.lid]
         if isinstance(a, VList) or isinstance(b, VList):
             a, b = self.align_lists(s, [a, b])
+        if isinstance(a, VStr) and isinstance(b, VStr) and a.s != b.s:
+            a, b = self.str_const(a.s), self.str_const(b.s)
+        elif isinstance(a, VStr) and isinstance(b, VObj):
+            a = self.str_const(a.s)
+        elif isinstance(b, VStr) and isinstance(a, VObj):
+            b = self.str_const(b.s)
         r = ite_val(t, a, b)
         if isinstance(r, VList):
             r = s.new_list(r)
